@@ -5,6 +5,7 @@
 //   group 2  indexing views, depth 1 (b)        group 5  depth 3 compositions
 //   group 3  ufunc / reduce / accumulate / outer / matmul, depth 1
 //   group 6  column-major leaves; raw-triple constructors (c13_mkarr), compute_offset (c13_koff)
+//   groups 7, 8  second halves of the depth 2 / depth 3 compositions
 #include "c13_kernel.hpp"
 #include "nmtools/array/view/cumsum.hpp"
 #include "nmtools/array/view/hstack.hpp"
@@ -77,6 +78,7 @@ static std::string kern(const Args& a) {
     PROG2("tr_add",      view::transpose(view::add(x0, x1), AXES))
     PROG2("add_tr",      view::add(view::transpose(x0, AXES), x1))
     PROG2("sum_add",     view::add(view::reduce_add(x0, AXIS, KEEP), x1))
+#elif C13_GROUP == 7
     PROG1("cumsum_tr",   view::accumulate_add(view::transpose(x0, AXES), AXIS))
     PROG1("flip_neg",    view::flip(view::negative(x0), AXIS))
     PROG1("sum_tr",      view::reduce_add(view::transpose(x0, AXES), AXIS, DROP))
@@ -91,6 +93,7 @@ static std::string kern(const Args& a) {
     PROG1("neg_max_sub", view::negative(view::subtract(view::reduce_maximum(x0, AXIS, KEEP), x0)))   // repeated leaf
     PROG3("neg_add_mul", view::negative(view::add(view::multiply(x0, x1), x2)))
     PROG2("tr_neg_add",  view::transpose(view::negative(view::add(x0, x1)), AXES))
+#elif C13_GROUP == 8
     PROG2("sum_tr_mul",  view::reduce_add(view::transpose(view::multiply(x0, x1), AXES), AXIS, DROP))
     PROG1("flip_tile_tr",view::flip(view::tile(view::transpose(x0, AXES), nats(a,"reps")), AXIS))
     PROG2("neg_sum_mul", view::negative(view::reduce_add(view::multiply(x0, x1), AXIS, KEEP)))
